@@ -7,11 +7,13 @@ C18 line-protocol driver.
   http  <bodyTmpl> <hdrTmpl> <varTmpl> <X-In> <q> <path> <secret>   end-to-end: vars middleware + static_response
   http2 <bodyTmpl> <s|l> <varTmpl> <X-In1> <q1> <X-In2> <q2> <secret>   two requests through the SAME vars+respond handler instances
   httpm <key> <matchVal> <varV> <X-In> <q> <secret>   vars matcher result + vars_regexp capture group 1
+  httprw <uriTmpl> <path> <rawQuery> <secret>   the URI part of the rewrite handler: Path, RawQuery, Fragment afterwards
   cost  <mode> <n> <mult>          timing witness (answer is the constant `cost`)
 env = `.` or `k:v;k:v;…` (hex fields).  Answers: `ok <hex>` | `err:<class>` | `panic`.
 -/
 import CaddyModel.C18.Model
 import CaddyModel.C18.Http
+import CaddyModel.C18.Rewrite
 
 namespace CaddyModel.C18
 
@@ -87,6 +89,13 @@ def handle : List String → String
       | some b, some c => "ok " ++ (if b then "1" else "0") ++ " " ++ Hex.encode c
       | _, _ => "panic"
     | _, _, _, _, _, _ => "bad-op"
+  | ["httprw", uri, path, rq, secret] =>
+    match Hex.decode uri, Hex.decode path, Hex.decode rq, Hex.decode secret with
+    | some u, some p, some q, some s =>
+      match rewriteURI true u ⟨p, q, s⟩ with
+      | some o => "ok " ++ Hex.encode o.path ++ " " ++ Hex.encode o.rawQuery ++ " " ++ Hex.encode o.frag
+      | none => "panic"
+    | _, _, _, _ => "bad-op"
   | ["cost", _, _, _] => "cost"
   | ["costf", _, _, _, _, _] => "cost"
   | ["zoo", _, _, _] => "zoo"      -- oracle-only stream (real provisioned server); nothing to model
